@@ -84,6 +84,14 @@ class Search(abc.ABC):
             path_results_basename = os.path.basename(self._path_results)
             path_results_basename = path_results_basename.replace(".", f"_{str_current_time}.")
             path_results_renamed = os.path.join(path_results_dirname, path_results_basename)
+            # Never overwrite earlier results (several searches can be created within a second)
+            num_renamed = 0
+            while os.path.exists(path_results_renamed):
+                num_renamed += 1
+                path_results_renamed = os.path.join(
+                    path_results_dirname,
+                    path_results_basename.replace(".", f"_{num_renamed}."),
+                )
             logging.warning(
                 f"Results file already exists, it will be renamed to {path_results_renamed}"
             )
